@@ -579,6 +579,12 @@ func (a *apiServer) JoinConsumerGroup(ctx context.Context, req *client.JoinConsu
 		return nil, status.Error(codes.InvalidArgument, "No streams provided")
 	}
 
+	e := a.ensureAuthorizationPermission(ctx, req.GroupId, "JoinConsumerGroup")
+	if e != nil {
+		a.logger.Errorf("api: Failed to authorize call on resource: %v", e)
+		return nil, e
+	}
+
 	coordinator, epoch, status := a.metadata.JoinConsumerGroup(ctx, &proto.JoinConsumerGroupOp{
 		GroupId:    req.GroupId,
 		ConsumerId: req.ConsumerId,
@@ -614,6 +620,12 @@ func (a *apiServer) LeaveConsumerGroup(ctx context.Context, req *client.LeaveCon
 		return nil, status.Error(codes.InvalidArgument, "No consumerId provided")
 	}
 
+	e := a.ensureAuthorizationPermission(ctx, req.GroupId, "LeaveConsumerGroup")
+	if e != nil {
+		a.logger.Errorf("api: Failed to authorize call on resource: %v", e)
+		return nil, e
+	}
+
 	status := a.metadata.LeaveConsumerGroup(ctx, &proto.LeaveConsumerGroupOp{
 		GroupId:    req.GroupId,
 		ConsumerId: req.ConsumerId,
@@ -641,6 +653,12 @@ func (a *apiServer) FetchConsumerGroupAssignments(ctx context.Context, req *clie
 	}
 	if req.ConsumerId == "" {
 		return nil, status.Error(codes.InvalidArgument, "No consumerId provided")
+	}
+
+	e := a.ensureAuthorizationPermission(ctx, req.GroupId, "FetchConsumerGroupAssignments")
+	if e != nil {
+		a.logger.Errorf("api: Failed to authorize call on resource: %v", e)
+		return nil, e
 	}
 
 	assignments, epoch, err := a.metadata.GetConsumerGroupAssignments(
@@ -687,6 +705,12 @@ func (a *apiServer) ReportConsumerGroupCoordinator(ctx context.Context, req *cli
 	}
 	if req.Coordinator == "" {
 		return nil, status.Error(codes.InvalidArgument, "No coordinator provided")
+	}
+
+	e := a.ensureAuthorizationPermission(ctx, req.GroupId, "ReportConsumerGroupCoordinator")
+	if e != nil {
+		a.logger.Errorf("api: Failed to authorize call on resource: %v", e)
+		return nil, e
 	}
 
 	status := a.metadata.ReportGroupCoordinator(ctx, &proto.ReportConsumerGroupCoordinatorOp{
